@@ -302,7 +302,7 @@ int main(int argc, char **argv)
 	long total;
 	char errpath[512];
 	nv_init(argc, argv);
-	maxlen_curated = atoi(nv_arg(argc, argv, "len", nv_thorough ? "5" : "4"));
+	maxlen_curated = atoi(nv_arg(argc, argv, "len", nv_thorough ? "6" : "4"));
 	maxlen_small = atoi(nv_arg(argc, argv, "slen", nv_thorough ? "4" : "3"));
 	trace_every = atoi(nv_arg(argc, argv, "trace", nv_thorough ? "49999" : "6007"));
 	gen(2);
